@@ -1,7 +1,7 @@
 #!/bin/sh
-# usage: tools/seeded_seed.sh <seed> — like seeded_all.sh with another seed; prints the counts too (robustness of the detections)
+# usage: tools/seeded_seed.sh <seed> [dir-prefix] — like seeded_all.sh with another seed; prints the counts too (robustness of the detections)
 cd /verif
-for d in seeded/C*/; do
+for d in seeded/${2:-C}*/; do
   n=$(basename $d)
   props=$(python3 -c "import json,sys;print(' '.join(json.load(open('$d/meta.json'))['ran'].split()[2:]))")
   first=$(echo $props | cut -d' ' -f1)
